@@ -36,7 +36,9 @@ ASSUMPTIONS = ["single process / sequential for the proved part", "file ctime ti
                "HybridCache durations are injected through put(key, value, duration)"]
 
 KEYS = ("a", "b", "c")
-OBS = KEYS + (1, "1")  # observed keys; 1 and "1" are different keys with the same str() (used by the disk alphabet)
+# observed keys; 1 and "1" are different keys with the same str(); -1 and -2 (and tuples of them) are different keys with
+# the same hash() (used by the disk alphabet)
+OBS = KEYS + (1, "1", -1, -2, (-1, "a"), (-2, "a"))
 
 
 def registry():
@@ -403,6 +405,11 @@ def _cases_disk(tier, rng):
     for _ in range(60 if tier == "quick" else 600):
         yield {"kind": "disk", "cfg": {"max_size": rng.choice((None, 3, 2)), "with_lru": rng.random() < 0.5},
                "ops": [rng.choice(alpha2) for _ in range(rng.randint(3, 9))]}
+    # different keys with the same hash(): each is its own entry
+    alpha3 = [(op, k) for op in ("put", "get") for k in (-1, -2, (-1, "a"), (-2, "a"))] + [("clear",)]
+    for _ in range(60 if tier == "quick" else 600):
+        yield {"kind": "disk", "cfg": {"max_size": rng.choice((None, 3, 2)), "with_lru": rng.random() < 0.5},
+               "ops": [rng.choice(alpha3) for _ in range(rng.randint(3, 9))]}
     # reopening on the same directory, possibly with a smaller max_size
     for _ in range(150 if tier == "quick" else 2000):
         ms0 = rng.choice((None, 3, 2))
